@@ -97,7 +97,57 @@ fn scat_main(env: &mut VEnv, args: Vec<Field>) -> Pin<Box<dyn Future<Output = BR
     })
 }
 
+/// `valu TAG VALUE OFF`: like `val`, after removing every U+FFFD from VALUE
+/// (their number is recorded as `repl`).
+fn valu_main(env: &mut VEnv, args: Vec<Field>) -> Pin<Box<dyn Future<Output = BResult> + '_>> {
+    Box::pin(async move {
+        let tag = args.first().map(|f| f.value.clone()).unwrap_or_default();
+        let value = args.get(1).map(|f| f.value.clone()).unwrap_or_default();
+        let off = arg_usize(&args, 2);
+        let pid = env.system.getpid().0;
+        let repl = value.chars().filter(|&c| c == '\u{FFFD}').count();
+        let cleaned: String = value.chars().filter(|&c| c != '\u{FFFD}').collect();
+        let mut ev = summarize("val", &tag, off, cleaned.as_bytes(), pid);
+        ev["argc"] = json!(args.len());
+        ev["repl"] = json!(repl);
+        push_event(ev);
+        BResult::new(ExitStatus(0))
+    })
+}
+
+async fn write_out(env: &mut VEnv, data: &[u8], who: &str) -> BResult {
+    match env.system.write_all(Fd::STDOUT, data).await {
+        Ok(()) => BResult::new(ExitStatus(0)),
+        Err(e) => {
+            let pid = env.system.getpid().0;
+            push_event(json!({"ev": format!("{who}_error"), "pid": pid, "errno": format!("{e:?}")}));
+            BResult::new(ExitStatus(1))
+        }
+    }
+}
+
+/// `emitb HEX`: writes the bytes given in hexadecimal (any byte values).
+fn emitb_main(env: &mut VEnv, args: Vec<Field>) -> Pin<Box<dyn Future<Output = BResult> + '_>> {
+    Box::pin(async move {
+        let hex = args.first().map(|f| f.value.clone()).unwrap_or_default();
+        let data: Vec<u8> = (0..hex.len() / 2).map(|i| u8::from_str_radix(&hex[2 * i..2 * i + 2], 16).unwrap_or(b'?')).collect();
+        write_out(env, &data, "emit").await
+    })
+}
+
+/// `emito OFF N`: writes bytes OFF .. OFF+N-1 of the counter stream.
+fn emito_main(env: &mut VEnv, args: Vec<Field>) -> Pin<Box<dyn Future<Output = BResult> + '_>> {
+    Box::pin(async move {
+        let (off, n) = (arg_usize(&args, 0), arg_usize(&args, 1));
+        let data: Vec<u8> = (off..off + n).map(stream_byte).collect();
+        write_out(env, &data, "emit").await
+    })
+}
+
 fn register(env: &mut VEnv) {
+    env.builtins.insert("valu", Builtin::new(Type::Mandatory, valu_main));
+    env.builtins.insert("emitb", Builtin::new(Type::Mandatory, emitb_main));
+    env.builtins.insert("emito", Builtin::new(Type::Mandatory, emito_main));
     env.builtins.insert("csink", Builtin::new(Type::Mandatory, csink_main));
     env.builtins.insert("val", Builtin::new(Type::Mandatory, val_main));
     env.builtins.insert("scat", Builtin::new(Type::Mandatory, scat_main));
@@ -118,6 +168,7 @@ pub fn render(tokens: &Value) -> Vec<u8> {
                 out.push(b'\'');
             }
             "r" => out.extend(codes(t)),
+            "x" => out.extend(codes(t).iter().flat_map(|b| format!("{b:02x}").into_bytes())),
             "b" => out.extend((0..t["n"].as_u64().unwrap() as usize).map(stream_byte)),
             other => panic!("unknown token kind {other}"),
         }
@@ -146,6 +197,9 @@ fn run_once(script: &str, schedule: Schedule, step_limit: usize) -> RunObs {
                 o.as_object_mut().unwrap().remove("pid");
                 if o.get("argc").is_none() {
                     o["argc"] = json!(3);
+                }
+                if o.get("repl").is_none() {
+                    o["repl"] = json!(0);
                 }
                 obs.push(o);
             }
